@@ -221,7 +221,7 @@ static std::string gen_url(rng &r, tree const &t)
 		case 2: url.insert(at, "\n"); break;
 		case 3: url += "\n"; break;
 		case 4: if (!url.empty()) url.erase(std::min(at, url.size() - 1), 1); break;
-		case 5: url.insert(at, 1, "/ab1_.%"[r.below(7)]); break;
+		case 5: if (r.chance(1, 4)) url.insert(at, 1, '\0'); else url.insert(at, 1, "/ab1_.%"[r.below(7)]); break;     // also a NUL byte: matching is on the whole string
 		default: url = url + url;
 		}
 	}
